@@ -164,6 +164,12 @@ def corpus():
         w2 = [("set", k, v, "meth") for k, v in m2.items()]
         out.append({"w1": w2, "w2": [("set", b"\x12", b"z" * 35, "meth")], "m1": m2, "m2": {b"\x12": b"z" * 35}, "seed": 9,
                     "long": False, "must_keys": [b"\x12\x34", b"\x12", b"\x12\x34\x56", b"\x12\x34\x50"]})
+    # the EMPTY trie (never written, and emptied again): the honest proof of any key is the empty tuple and verifies to b""
+    out.append({"w1": [], "w2": [("set", b"\x12", b"z" * 35, "meth")], "m1": {}, "m2": {b"\x12": b"z" * 35}, "seed": 11, "long": False,
+                "must_keys": [b"", b"\x12", b"\x12\x34"]})
+    out.append({"w1": [("set", b"\x12\x34", b"a" * 40, "meth"), ("set", b"\x12", b"b", "meth"), ("del", b"\x12\x34", "meth"), ("del", b"\x12", "item")],
+                "w2": [("set", b"\x12", b"z" * 35, "meth")], "m1": {}, "m2": {b"\x12": b"z" * 35}, "seed": 12, "long": False,
+                "must_keys": [b"", b"\x12", b"\x12\x34"]})
     return out
 
 
